@@ -115,6 +115,26 @@ def deep_nest(rng, depth):
     return v
 
 
+def _unconverted_instance(v, w):
+    """The value AST of a structured instance (at the root or as the elements of a list) rebuilt
+    with the *wire* forms of its fields."""
+    def one(vv, ww):
+        if isinstance(vv, dict) and "$obj" in vv and isinstance(ww, dict) and "$dict" in ww:
+            wf = {p[0]: p[1] for p in ww["$dict"] if isinstance(p[0], str)}
+            if wf and set(wf) <= set(vv.get("f", {})) | set(wf) and all(k in wf for k in vv.get("f", {})):
+                return {"$obj": vv["$obj"], "f": {k: copy.deepcopy(wf[k]) for k in vv["f"]}}
+        return None
+
+    r = one(v, w)
+    if r is not None:
+        return r
+    if isinstance(v, dict) and "$list" in v and isinstance(w, dict) and "$list" in w and len(v["$list"]) == len(w["$list"]) and v["$list"]:
+        elems = [one(a, b) for a, b in zip(v["$list"], w["$list"])]
+        if all(e is not None for e in elems):
+            return {"$list": elems}
+    return None
+
+
 class C03(PropBase):
     ID = "C03"
     QUICK_RUNS = 3000
@@ -130,6 +150,7 @@ class C03(PropBase):
         "raises an Exception, or its result structurally conforms to T. Non-trivial: the corrupted form differs from the clean one "
         "and was accepted by the JSON decoder (so the unmarshaller had to decide), or a fault fired before; distinct = distinct "
         "(operation digest, pre-state signature) pairs."
+        ' Text inputs include Python-literal text whose mapping keys are not str.'
     )
     ASSUMPTIONS = ["conformance is the lenient structural notion of DESIGN §5.2 (subclass instances conform at scalar and class positions; "
                    "Literal membership by ==; exact builtin containers)"]
@@ -197,7 +218,7 @@ class C03(PropBase):
                     t = rng.choice(tw)
             v, w = rng.choice(pairs)
             step = {"op": "unmarshal", "t": t, "mod": rng.choice(mods)}
-            src = core.weighted(rng, [(8, "corrupt"), (3, "junk"), (2, "bytes"), (1, "other"), (1 if "deep" in sw else 0, "deep"), (1, "clean"), (1, "instance")])
+            src = core.weighted(rng, [(8, "corrupt"), (3, "junk"), (2, "bytes"), (1, "other"), (1 if "deep" in sw else 0, "deep"), (1, "clean"), (2, "instance")])
             ops = []
             if src == "corrupt":
                 x, ops = corrupt(rng, w, graft)
@@ -214,6 +235,12 @@ class C03(PropBase):
                 ot, opairs = rng.choice(pool)
                 x = copy.deepcopy(rng.choice(opairs)[0])
                 ops = ["instance-of-other"]
+                bad = _unconverted_instance(v, w)
+                if bad is not None and rng.random() < 0.7:
+                    # an instance of the target class itself whose fields hold wire forms (classes do
+                    # not validate what they are constructed with): it must be converted like any input
+                    x = bad
+                    ops = ["instance-with-unconverted-fields"]
             elif src == "bytes":
                 txt = hist.json_text(w)
                 if txt is None:
